@@ -262,3 +262,45 @@ let () =
   port "fill_markdown" (fun r -> let o = rd_mdopts r in let text = rd_str r in let d = rd_opt rd_doc r in
     let parse _ = (match d with Some x -> x | None -> { d_blocks = []; d_refdefs = [] }) in
     wr_m wr_str (fill_markdown parse o text))
+
+(* ---- resolver: tree and oracle tables ---- *)
+let rec rd_node r : node =
+  match rd_int r with
+  | 0 -> NFile (rd_n r)
+  | 1 -> NDir (rd_list (fun r -> let n = rd_str r in let nd = rd_node r in (n, nd)) r)
+  | 2 -> NLink
+  | _ -> raise (Bad "node tag")
+
+(* a table of (string, answer) pairs: the matcher's answers for every string the model can ask about *)
+let rd_table r : (str -> bool) =
+  let t = rd_list (fun r -> let s = rd_str r in let b = rd_bool r in (s, b)) r in
+  (fun s -> try List.assoc s t with Not_found -> raise (Bad "oracle table has no answer"))
+
+let rd_table_opt r : (str -> bool option) =
+  let t = rd_list (fun r -> let s = rd_str r in let v = (match rd_int r with 0 -> None | 1 -> Some false | _ -> Some true) in (s, v)) r in
+  (fun s -> try List.assoc s t with Not_found -> raise (Bad "oracle table has no answer"))
+
+let () =
+  (* resolver_walk: respect maxsize inc exc tool? gi-table(list of (rel, spec?)) tree -> list of relative paths *)
+  port "resolver_walk" (fun r ->
+    let respect = rd_bool r in let maxsize = rd_n r in
+    let inc = rd_table r in let exc = rd_table r in
+    let tool = rd_opt rd_table r in
+    let gis = rd_list (fun r -> let rel = rd_strs r in let sp = rd_opt rd_table_opt r in (rel, sp)) r in
+    let gi rel = (try List.assoc rel gis with Not_found -> None) in
+    let tree = rd_node r in
+    wr_list wr_strs (walk inc exc tool gi respect maxsize [] [] tree));
+  port "resolver_explicit" (fun r ->
+    let force = rd_bool r in let maxsize = rd_n r in let exc = rd_table r in
+    let parts = rd_strs r in let sz = rd_n r in
+    wr_bool (include_explicit exc maxsize force parts sz));
+  port "resolver_resolve" (fun r ->
+    (* strings compared by code points, lists lexicographically: the order of PosixPath on components *)
+    let per_arg = rd_list (rd_list rd_strs) r in
+    let rec cmp_str a b = (match a, b with
+      | [], [] -> 0 | [], _ -> -1 | _, [] -> 1
+      | x :: a', y :: b' -> let c = compare (int_of_n x) (int_of_n y) in if c <> 0 then c else cmp_str a' b') in
+    let rec cmp_path a b = (match a, b with
+      | [], [] -> 0 | [], _ -> -1 | _, [] -> 1
+      | x :: a', y :: b' -> let c = cmp_str x y in if c <> 0 then c else cmp_path a' b') in
+    wr_list wr_strs (resolve (fun a b -> cmp_path a b = 0) (fun a b -> cmp_path a b <= 0) per_arg))
